@@ -42,7 +42,7 @@ SPEC = {
     "pins": ["GlobalState"],
     "harness": "harness.c19",
     "technique": "Lean 4 theorems about an executable model of the process (the pinned list of global cells: identity counter, lru caches with CPython's key equality, import cache, ContextVar, cwd) and of a run as an arbitrary interaction tree over the operations on those cells + the global-state scan of snowfakery/** regenerated from the AST on every run with bridging lemmas (every cell classified; writers, readers, import-time effects, mutable defaults, class-attribute writes, external process-wide calls) + run-sequence correspondence in pristine forked processes with recorded cell operations, before/after snapshots of every pinned cell and a fresh-process baseline for every run",
-    "level_text": "Machine-checked proof, for every interaction tree (recipe, options, continuation), every process state and every sequence of earlier runs including failing ones, that a run's output is a function of the program and of the cells it reads before overwriting them (frame), that a run changes only the cells its operations write (failed_run_frame), that a program without unique-id / random / clock functions whose cached calls avoid aware datetimes produces in any process exactly its fresh-process output (runs_independent), that generator context numbers never repeat across runs and that the working directory is restored; the full-strength statement is refuted for the code by three witnesses replayed on the implementation (D19b, D19d, D19).  The model is tied to the source by the global-state scan (38 cells today, each classified) and by replaying the recorded cell operations of real run sequences on the Lean machine.",
+    "level_text": "Machine-checked proof, for every interaction tree (recipe, options, continuation), every process state and every sequence of earlier runs including failing ones, that a run's output is a function of the program and of the cells it reads before overwriting them (frame), that a run changes only the cells its operations write (failed_run_frame), that a deterministic run written against the code's entry points — parse_date / parse_datetimespec with ANY key, since commit 885750c only strings reach the caches — produces in any process exactly its fresh-process output for every behaviour of the libraries behind the caches (runs_independent_full), that generator context numbers never repeat across runs, that the working directory is restored and that generate() leaves the caller's plugin_options alone; what remains false for the code is shown by witnesses replayed on the implementation (D19d import cache; D19 unique ids by design), the repaired defects D19b / D19c survive only as statements about an explicitly parameterised old behaviour.  The model is tied to the source by the global-state scan (38 cells today, each classified) and by replaying the recorded cell operations of real run sequences on the Lean machine.",
     "level_note": "Trusted: Lean kernel; py2lean + tools/pins/global_state.py (AST scan: a cell created through exec/setattr on a foreign module, or state kept inside third-party libraries, is invisible to it — the harness snapshots cwd, sys.path, os.environ and the yaml registries in addition); the harness wrappers that record the cell operations. The interaction-tree model assumes the interpreter reaches process state only through the pinned operations; that assumption is what the pin and the snapshots check. PRNG draws and clock reads are operations of the model but are not recorded one by one (PRNGs are re-seeded before every run instead).",
     "assumptions": [
         "functools.lru_cache: recency list, lookup by ==/hash, hit keeps the stored key object, miss evicts the oldest entry when full (hits/misses/currsize compared with cache_info() after every run)",
@@ -152,8 +152,10 @@ class Recorder:
 
         rec = self
         self.caches = {
-            "parse_date": template_funcs.parse_date,
-            "parse_datetimespec": template_funcs.parse_datetimespec,
+            # since commit 885750c the caches sit on the string-only helpers (the old shape is still driven,
+            # so that a revert is reported with a failing input and not as "cannot drive the code")
+            "parse_date": getattr(template_funcs, "_parse_date_str", None) or template_funcs.parse_date,
+            "parse_datetimespec": getattr(template_funcs, "_parse_datetime_str", None) or template_funcs.parse_datetimespec,
             "randomizer": scrambled_numbers.randomizer,
             "mask_for_key": scrambled_numbers.mask_for_key,
         }
@@ -231,8 +233,9 @@ class Recorder:
             if not mname.startswith("snowfakery") or mod is None:
                 continue
             for name, orig in self.caches.items():
-                if mod.__dict__.get(name) is orig:
-                    mod.__dict__[name] = self.wrapped[name]
+                for attr, val in list(mod.__dict__.items()):
+                    if val is orig:
+                        mod.__dict__[attr] = self.wrapped[name]
 
 
 def fingerprint(obj, depth=0):
@@ -769,10 +772,12 @@ INSTANTS = [28928160, 28928160 + 1920, 28401120 + 1200, 29000000 - 29000000 % 60
 OFFSETS = [0, 60, -300, 330, -720, 540, 840]
 
 
-def gen_dates(rng, aware_mix=False):
+def gen_dates(rng, aware_mix=None):
     """date / datetime through strings, date objects, naive datetimes and aware datetimes.
-    aware_mix=False: all aware datetimes of the whole check run use offset +00:00 (no aliasing possible);
-    aware_mix=True: instants from a small pool under different offsets (D19b family)."""
+    aware_mix=True: instants from a small pool under different offsets (the D19b family; since commit 885750c
+    repaired D19b this is the default for most date recipes of the main pool); aware_mix=False: offset +00:00."""
+    if aware_mix is None:
+        aware_mix = rng.random() < 0.7
     inst = rng.choice(INSTANTS)
     off = rng.choice(OFFSETS) if aware_mix else 0
     day = rng.choice(["2024-03-01", "2023-12-31", "2025-01-01"])
@@ -1040,7 +1045,9 @@ def canon_result(spec, r):
 
 ALLOWED_CHANGES = {
     "standard_plugins/UniqueId.py:UniqueNumericIdGenerator.context_uniqifier",
-    "template_funcs.py:parse_date",
+    "template_funcs.py:_parse_date_str",
+    "template_funcs.py:_parse_datetime_str",
+    "template_funcs.py:parse_date",  # the cells before commit 885750c (revert tests)
     "template_funcs.py:parse_datetimespec",
     "utils/scrambled_numbers.py:randomizer",
     "utils/scrambled_numbers.py:mask_for_key",
@@ -1054,9 +1061,10 @@ ALLOWED_CHANGES = {
 }
 
 
-# fields through which the (unrepaired part of) D19b is observable: `date:` / `date_between` of an aware datetime
-# (parse_date returns the offset-dependent calendar day) and `datetime:` with a non-default zone.  `dt_aware`
-# (`datetime:` with the default zone) is NOT in the list: commit f914bf1 made it independent of the cache.
+# D19b (repaired by commit 885750c; the entry is "fixed", so this signature suppresses nothing): the fields through which
+# the date-cache aliasing was observable after f914bf1 — `date:` / `date_between` of an aware datetime and `datetime:` with
+# a non-default zone.  A difference confined to them that the cache replay explains is reported under D19b's signature,
+# anything else under the generic one.
 ALIAS_FIELDS = {"day_aware", "dz_zone", "dz_naive", "db_aware"}
 
 
@@ -1158,7 +1166,8 @@ def datetime_view_check(rep, case, seq, res, replay):
                 served = mo["obs"][1]
                 break
         if served is None:
-            continue
+            # since commit 885750c a datetime argument never reaches the cache: parse_datetimespec answers directly
+            served = key
         fields = dict((k, v) for k, v in r["rows"][0][1])
         for fname, tz in (("dt_aware", 0), ("dz_zone", 300), ("dz_naive", None)):
             if fname in fields:
